@@ -225,6 +225,9 @@ func aliasMatches(alias, path string) bool {
 	case "storagev1":
 		return path == "k8s.io/api/storage/v1"
 	}
+	if strings.HasSuffix(alias, "utils") && len(alias) > 5 {
+		return path == modPath+"/pkg/utils/"+strings.TrimSuffix(alias, "utils")
+	}
 	return false
 }
 
@@ -457,7 +460,7 @@ func (env *specEnv) eval(e Expr) sval {
 		switch xt := x.typ.Underlying().(type) {
 		case *types.Slice:
 			s := env.rv(x)
-			loc := fmt.Sprintf("(idx (s_arr %s) (+ (s_off %s) %s))", s, s, env.rv(i))
+			loc := fmt.Sprintf("(sidx %s %s)", s, env.rv(i))
 			if isStructLike(xt.Elem()) {
 				return sval{typ: xt.Elem(), ref: &cellRef{ix: loc, structLoc: true}}
 			}
@@ -675,6 +678,11 @@ func (env *specEnv) evalQuant(q *EQuant) sval {
 		var ts []string
 		for _, te := range tr {
 			v := env.eval(te)
+			if v.ref != nil && strings.Contains(v.ref.ix, "(sidx ") {
+				// trigger on the location, not on a particular heap version
+				ts = append(ts, v.ref.ix)
+				continue
+			}
 			ts = append(ts, env.rv(v))
 		}
 		pats = append(pats, ":pattern ("+strings.Join(ts, " ")+")")
@@ -812,10 +820,24 @@ func patMatches(pat, name string) bool {
 
 func (fr *Frame) findDominatingCall(pat string) *CallRec {
 	log := fr.eng.callLog
+	tf := fr
+	for tf.parent != nil {
+		tf = tf.parent
+	}
 	for i := len(log) - 1; i >= 0; i-- {
 		r := log[i]
 		if !patMatches(pat, r.Name) {
 			continue
+		}
+		// the call must dominate the current point of the top-level function
+		if r.Block != nil && tf.curBlock != nil {
+			if r.Block == tf.curBlock {
+				if r.Index > tf.curIdx {
+					continue
+				}
+			} else if !r.Block.Dominates(tf.curBlock) {
+				continue
+			}
 		}
 		return r
 	}
